@@ -305,7 +305,7 @@ impl Model {
     /// All states reachable from `c` by letting workers run: per shard a further
     /// prefix of the FIFO of pending merges takes effect. `forced(shard, seq)` says
     /// which pending merges MUST have taken effect (queue order / awaited results).
-    fn expand_one(&self, c: &Cand, forced: &dyn Fn(&Pending) -> bool) -> Vec<Cand> {
+    pub fn expand_one(&self, c: &Cand, forced: &dyn Fn(&Pending) -> bool) -> Vec<Cand> {
         let mut states = vec![c.clone()];
         let shards: BTreeSet<usize> = self.pending.iter().map(|p| p.shard).collect();
         for s in shards {
